@@ -69,18 +69,51 @@ def install(root, graph, default_product=False):
     s = stacks[0]
     for p in graph["products"]:
         n, v = p["name"], p["version"]
-        d = common.mkprod(s, n, v, table_text(p["deps"]))
+        if p.get("notable"):
+            # declared with `-M none`: no ups directory, no table file (behaves as an empty table)
+            assert not p["deps"]
+            d = os.path.join(s, FLAVOR, n, v)
+            os.makedirs(d, exist_ok=True)
+        else:
+            d = common.mkprod(s, n, v, table_text(p["deps"]))
+        if p.get("missing"):
+            os.unlink(os.path.join(d, "ups", n + ".table"))     # declared, but the table file is gone
         if p.get("payload", True):
             with open(os.path.join(d, "payload"), "w") as f:
                 f.write("%s %s\n" % (n, v))
         db = os.path.join(s, "ups_db", n)
         os.makedirs(db, exist_ok=True)
         with open(os.path.join(db, v + ".version"), "w") as f:
-            f.write(VERSION_FILE % {"name": n, "version": v})
+            txt = VERSION_FILE % {"name": n, "version": v}
+            if p.get("notable"):
+                txt = txt.replace("UPS_DIR = ups", "UPS_DIR = none").replace("TABLE_FILE = %s.table" % n, "TABLE_FILE = none")
+            f.write(txt)
         for t in p.get("tags", []):
             with open(os.path.join(db, t + ".chain"), "w") as f:
                 f.write(CHAIN_FILE % {"name": n, "version": v, "tag": t})
     return s
+
+
+def set_up_in_env(stack, products):
+    """Make `products` [(name, version)] look set up to the command: SETUP_<NAME> and <NAME>_DIR as `setup` leaves them."""
+    for n, v in products:
+        os.environ["SETUP_" + n.upper()] = "%s %s -f %s -Z %s" % (n, v, FLAVOR, stack)
+        os.environ[n.upper() + "_DIR"] = os.path.join(stack, FLAVOR, n, v)
+
+
+def readonly_database(stack):
+    """Make the stack's ups_db look non-writable to eups in this (forked) process: for paths inside the stack
+    `utils.isDbWritable` answers False, as `os.access` does for a user without write permission (a root-run harness
+    cannot take the permission away); every other path (the user's data directory) is judged as before."""
+    U = common.eups_mod("utils")
+    orig = U.isDbWritable
+    prefix = os.path.realpath(stack) + os.sep
+
+    def is_db_writable(dbpath, create=False):
+        if (os.path.realpath(dbpath) + os.sep).startswith(prefix):
+            return False
+        return orig(dbpath, create)
+    U.isDbWritable = is_db_writable
 
 
 def point_env_at(root):
@@ -112,8 +145,16 @@ def err_class(ex):
         return "Unsortable"
     if name == "ProductNotFound":
         return "NotFound"
+    if name == "TableFileNotFound":
+        return "TableError"
     if name == "EupsException":
-        return "Refused" if "is required by product" in str(ex) else "Other(EupsException)"
+        if "is required by product" in str(ex):
+            return "Refused"
+        if "is already setup" in str(ex):
+            return "IsSetup"
+        if "do not have permission" in str(ex):
+            return "NoPermission"
+        return "Other(EupsException)"
     return "Other(%s)" % name
 
 
